@@ -164,3 +164,49 @@ func knownNonEmpty(f condFacts, v ssa.Value) bool {
 	}
 	return false
 }
+
+// knownMinLen: do the facts establish len(v) >= want?
+func knownMinLen(f condFacts, v ssa.Value, want int) bool {
+	for cond, val := range f {
+		b, ok := cond.(*ssa.BinOp)
+		if !ok {
+			continue
+		}
+		lenOf := func(e ssa.Value) bool {
+			call, ok := e.(*ssa.Call)
+			if !ok {
+				return false
+			}
+			bi, ok := call.Call.Value.(*ssa.Builtin)
+			return ok && bi.Name() == "len" && len(call.Call.Args) == 1 && call.Call.Args[0] == v
+		}
+		w := int64(want)
+		if lenOf(b.X) {
+			if n, ok := constInt(b.Y); ok {
+				switch {
+				case b.Op == token.GTR && val && n+1 >= w,
+					b.Op == token.GEQ && val && n >= w,
+					b.Op == token.EQL && val && n >= w,
+					b.Op == token.LEQ && !val && n+1 >= w,
+					b.Op == token.LSS && !val && n >= w,
+					b.Op == token.NEQ && val && n == 0 && w <= 1,
+					b.Op == token.EQL && !val && n == 0 && w <= 1:
+					return true
+				}
+			}
+		}
+		if lenOf(b.Y) {
+			if n, ok := constInt(b.X); ok {
+				switch {
+				case b.Op == token.LSS && val && n+1 >= w,
+					b.Op == token.LEQ && val && n >= w,
+					b.Op == token.EQL && val && n >= w,
+					b.Op == token.GEQ && !val && n+1 >= w,
+					b.Op == token.GTR && !val && n >= w:
+					return true
+				}
+			}
+		}
+	}
+	return false
+}
